@@ -266,14 +266,32 @@ class _Gen:
                 return e
         return self.atom()
 
+    def item(self):
+        """an element of a bracketed / braced list (index item, range bound, set element): any expression may stand
+        there, so every class of FIRST token is drawn — cast, call, index expression, parenthesis, each prefix operator"""
+        r = self.r.random()
+        if r < 0.62:
+            return self.simple()
+        if r < 0.70:
+            return ["cast", self.cast_type(), self.simple()]
+        if r < 0.77:
+            return ["call", self.ch(FUNCS), [self.simple() for _ in range(self.ch([0, 1, 2]))]]
+        if r < 0.83:
+            return ["index", ["id", self.ch(VARS)], [self.simple()]]
+        if r < 0.89:
+            return ["paren", self.simple()]
+        if r < 0.96:
+            return ["pre", self.ch(["-", "!", "~"]), self.atom()]
+        return ["bin", self.ch(BINOPS), ["cast", self.cast_type(), self.atom()], self.atom()]
+
     def range_(self):
-        step = self.simple() if self.p(0.35) else None
-        return ["range", self.simple(), step, self.simple()]
+        step = self.item() if self.p(0.35) else None
+        return ["range", self.item(), step, self.item()]
 
     def index_items(self):
         if self.p(0.08):
-            return [["set", [self.simple() for _ in range(self.ch([1, 2, 3]))]]]
-        return [self.range_() if self.p(0.25) else self.simple() for _ in range(self.ch([1, 1, 1, 2]))]
+            return [["set", [self.item() for _ in range(self.ch([1, 2, 3]))]]]
+        return [self.range_() if self.p(0.25) else self.item() for _ in range(self.ch([1, 1, 1, 2]))]
 
     def index_expr(self, d):
         r = self.r.random()
@@ -330,7 +348,7 @@ class _Gen:
         if plain or r < 0.5:
             return ["id", self.ch(QUBITS)]
         if r < 0.8:
-            return ["index", ["id", self.ch(QUBITS)], [self.ch([["lit", "0"], ["lit", "1"], ["id", "i"]])]]
+            return ["index", ["id", self.ch(QUBITS)], [self.ch([["lit", "0"], ["lit", "1"], ["id", "i"]]) if self.p(0.7) else self.item()]]
         if r < 0.87:
             return ["index", ["id", self.ch(QUBITS)], [["range", ["lit", "0"], None, ["lit", "2"]]]]
         return ["hw", self.ch(["$0", "$1", "$12"])]
@@ -633,7 +651,7 @@ class _Gen:
         t = self.scalar_type(["int", "uint", "float", "angle", "bit"], 0.4)
         r = self.r.random()
         if r < 0.35:
-            it = ["set", [self.simple() for _ in range(self.ch([1, 2, 3, 4]))]]
+            it = ["set", [self.item() for _ in range(self.ch([1, 2, 3, 4]))]]
         elif r < 0.7:
             it = self.range_()
         elif r < 0.88:
